@@ -410,6 +410,16 @@ func (v *Verifier) applyContract(st *State, in *ssa.Call, c *Contract, fn *ssa.F
 	for i, n := range names {
 		env.vars[n] = SVal{args[i], tys[i]}
 	}
+	if fn != nil {
+		// parameters renamed since the contract was written keep the name the contract uses (names.go)
+		for was, now := range renamesOf(v.P, fn) {
+			if val, ok := env.vars[now]; ok {
+				if _, taken := env.vars[was]; !taken {
+					env.vars[was] = val
+				}
+			}
+		}
+	}
 	if fn != nil && fn.Blocks != nil {
 		// parameters the compiler left unnamed (the element variable of a range-over-func body) go by the
 		// name the source gives them
@@ -593,8 +603,9 @@ func evalModTarget(env *SpecEnv, item string) (cell *Sort, ref *Term, elemT type
 	}
 	// a captured variable of the closure under verification: the cell it lives in
 	if env.fr != nil {
+		now := renamesOf(env.v.P, env.fr.fn)[item]
 		for i, fv := range env.fr.fn.FreeVars {
-			if (fv.Name() == item || item == fmt.Sprintf("#%d", i)) && i < len(env.fr.bindings) {
+			if (fv.Name() == item || item == fmt.Sprintf("#%d", i) || (now != "" && fv.Name() == now)) && i < len(env.fr.bindings) {
 				T := elemType(fv.Type())
 				return sortOf(T), env.fr.bindings[i], T, true
 			}
